@@ -20,10 +20,22 @@ Dir(key) == SubSeq(key, 1, Len(key) - 1)
 
 NoKey == <<"<unresolvable>">>
 
-\* the note a link written in a note of directory d points to
+\* walking the segments of a url from a directory: ".." goes up (and cannot leave the library),
+\* "." stays; the result is <<ok, path>>
+RECURSIVE Walk(_, _)
+Walk(stack, segs) ==
+    IF segs = <<>> THEN <<TRUE, stack>>
+    ELSE IF Head(segs) = "." THEN Walk(stack, Tail(segs))
+    ELSE IF Head(segs) = ".."
+         THEN (IF stack = <<>> THEN <<FALSE, <<>>>> ELSE Walk(SubSeq(stack, 1, Len(stack) - 1), Tail(segs)))
+    ELSE Walk(Append(stack, Head(segs)), Tail(segs))
+
+\* the note a link written in a note of directory d points to ("." and ".." may also stand
+\* between names: sub/../2 from d/ is d/2)
 Resolve(d, u) ==
     IF u.segs = <<>> \/ u.up > Len(d) THEN NoKey
-    ELSE SubSeq(d, 1, Len(d) - u.up) \o u.segs
+    ELSE LET w == Walk(SubSeq(d, 1, Len(d) - u.up), u.segs)
+         IN  IF ~w[1] \/ w[2] = <<>> THEN NoKey ELSE w[2]
 
 \* longest common prefix length
 RECURSIVE Common(_, _)
